@@ -51,6 +51,8 @@ struct Respond {
 struct RespondStream {
     tx: SendStream<Bytes>,
     id: log_utils::IdChain<u64>,
+    /// The end of the stream has been sent: nothing more may be written or needs flushing
+    eof_sent: bool,
 }
 
 impl<IO> Http2Codec<IO>
@@ -292,7 +294,11 @@ impl http_codec::PendingRespond for Respond {
             .map_err(h2_to_io_error)?;
 
         log_id!(trace, self.id, "H2 response sent successfully");
-        Ok(Box::new(RespondStream { tx, id: self.id }))
+        Ok(Box::new(RespondStream {
+            tx,
+            id: self.id,
+            eof_sent: eof,
+        }))
     }
 }
 
@@ -353,7 +359,9 @@ impl pipe::Sink for RespondStream {
         log_id!(trace, self.id, "H2 stream sending EOF");
         self.tx
             .send_data(Bytes::new(), true)
-            .map_err(h2_to_io_error)
+            .map_err(h2_to_io_error)?;
+        self.eof_sent = true;
+        Ok(())
     }
 
     async fn wait_writable(&mut self) -> io::Result<()> {
@@ -362,6 +370,15 @@ impl pipe::Sink for RespondStream {
             stream: &mut self.tx,
         }
         .await
+    }
+
+    async fn flush(&mut self) -> io::Result<()> {
+        // An ended stream never gets send capacity again, so waiting for it would report a
+        // failure for a stream which is merely half-closed
+        if self.eof_sent {
+            return Ok(());
+        }
+        self.wait_writable().await
     }
 }
 
